@@ -172,7 +172,30 @@ func pbMessage(m map[string]any) *gtfsrt.FeedMessage {
 			}
 			if gb(a, "hasMercuryAlert") {
 				c, u, ty := uint64(1700000000), uint64(1700000500), "Delays"
-				proto.SetExtension(al, gtfsrt.E_MercuryAlert, &gtfsrt.MercuryAlert{CreatedAt: &c, UpdatedAt: &u, AlertType: &ty})
+				ma := &gtfsrt.MercuryAlert{CreatedAt: &c, UpdatedAt: &u, AlertType: &ty}
+				// the optional parts of the Mercury alert in every presence pattern (their content is
+				// opaque to the model: it only ends up in the metadata text)
+				mv := gi(a, "mercuryVariant")
+				switch mv % 4 {
+				case 1:
+					ma.HumanReadableActivePeriod = &gtfsrt.TranslatedString{} // present, no translation
+				case 2:
+					t := "Mon - Fri"
+					ma.HumanReadableActivePeriod = &gtfsrt.TranslatedString{Translation: []*gtfsrt.TranslatedString_Translation{{Text: &t}}}
+				case 3:
+					t, t2, l := "a", "b", "en"
+					ma.HumanReadableActivePeriod = &gtfsrt.TranslatedString{Translation: []*gtfsrt.TranslatedString_Translation{{Text: &t, Language: &l}, {Text: &t2}}}
+				}
+				if (mv/4)%2 == 1 {
+					d := uint64(3600)
+					ma.DisplayBeforeActive = &d
+				}
+				if (mv/8)%2 == 1 {
+					ma.ServicePlanNumber = []string{"1", "2"}
+					cl := "clone"
+					ma.CloneId = &cl
+				}
+				proto.SetExtension(al, gtfsrt.E_MercuryAlert, ma)
 			}
 			ent.Alert = al
 		}
